@@ -2,13 +2,13 @@
 C16 — inversion of every message of the model (`step s op = .ok s'` gives the checks that
 passed and the exact successor state) and preservation of the store invariants by `step`.
 -/
-import PvProofs.Lemmas.AttrInv
+import PvProofs.Lemmas.AttrSweep
 
 set_option linter.unusedSimpArgs false
 set_option linter.unusedVariables false
 
 namespace PvProofs.Lemmas.AttrStep
-open PvModel.Attr PvProofs.Lemmas.AttrStore PvProofs.Lemmas.AttrInv
+open PvModel.Attr PvProofs.Lemmas.AttrStore PvProofs.Lemmas.AttrInv PvProofs.Lemmas.AttrSweep
 
 /-! ### inversions -/
 
